@@ -25,6 +25,19 @@ func (c *clientPool) setPool(nodeID uint64, p Pool) {
 	c.mu.Unlock()
 }
 
+// setPoolIfAbsent installs p for nodeID unless another goroutine installed a
+// pool in the meantime; in that case p is closed and the existing pool stays.
+func (c *clientPool) setPoolIfAbsent(nodeID uint64, p Pool) {
+	c.mu.Lock()
+	if _, ok := c.pool[nodeID]; ok {
+		c.mu.Unlock()
+		p.Close()
+		return
+	}
+	c.pool[nodeID] = p
+	c.mu.Unlock()
+}
+
 func (c *clientPool) getPool(nodeID uint64) (Pool, bool) {
 	c.mu.RLock()
 	p, ok := c.pool[nodeID]
